@@ -93,5 +93,13 @@ class Node(BaseNode):
                     pass
 
         if self not in _children_cache:
-            _children_cache[self] = tuple(dfs(self.__pub__()))
+            children = list(dfs(self.__pub__()))
+            known = {id(child) for child in children}
+            # nodes that live only in .ast (a class with fields built by a rule
+            # option without names): __pub__() leaves .ast out in that case
+            for child in dfs(self.ast):
+                if id(child) not in known:
+                    known.add(id(child))
+                    children.append(child)
+            _children_cache[self] = tuple(children)
         return _children_cache[self]
